@@ -1,14 +1,27 @@
 /-
   Main.lean — line-protocol driver for the executable model.  One request per line on stdin, one reply per line.
+  Each model group owns one `Cmd*.lean` with a `dispatch : String → Args → Option String`.
 -/
 import Driver.Proto
 import Driver.CmdTab
+import Driver.CmdStab
+import Driver.CmdDag
+import Driver.CmdWire
+import Driver.CmdExport
+import Driver.CmdGraph
+import Driver.CmdDM
+import Driver.CmdEvo
+import Driver.CmdCliff
 open Graphiq Graphiq.Proto
+
+def dispatchers : List (String → Args → Option String) :=
+  [CmdTab.dispatch, CmdStab.dispatch, CmdDag.dispatch, CmdWire.dispatch, CmdExport.dispatch,
+   CmdGraph.dispatch, CmdDM.dispatch, CmdEvo.dispatch, CmdCliff.dispatch]
 
 def handle (line : String) : String :=
   let (cmd, a) := parseLine line
   if cmd = "" then "err empty" else
-  match CmdTab.dispatch cmd a with
+  match dispatchers.findSome? (fun d => d cmd a) with
   | some r => r
   | none => "err unknown-command"
 
